@@ -14,7 +14,7 @@ def MainStmt (e : BEnv) (Γ : Ctx) (cfg : SerCfg) (pcfg : ParserConfig) (M : NsM
   ∀ (v : Val) (c : ClassId) (pnsG pnsP : Option Str) (oq : Option QN) (q : QN) (fuel : Nat)
     (mg mp : XmlMeta),
     metaOf Γ c pnsG = some mg → metaOf Γ c pnsP = some mp → dropQ mg = dropQ mp →
-    resolveQ oq mg = q → nsAgree Γ mp q = true → valObjN Γ n pnsP c v = true →
+    resolveQ oq mg = q → nsAgree Γ mp q = true → valObjG true Γ n pnsP c v = true →
     4 * v.size ≤ fuel →
     ∃ evs a text kids,
       genObj e Γ cfg fuel v pnsG oq false none = .ok evs ∧
@@ -109,7 +109,7 @@ theorem item_obj (e : BEnv) (Γ : Ctx) (cfg : SerCfg) (pcfg : ParserConfig) (M :
     {c : ClassId} {m' : XmlMeta} (hcl : var.clazz = some c) (hty : var.types = [.cls c])
     (hm' : metaOf Γ c (targetUri m.qname) = some m') (hns' : nsAgree Γ m' var.qname = true)
     (q : QN) (hnsq : nsAgree Γ m q = true) (hmem : var ∈ m.elementVars)
-    (y : Val) (hy : valObjN Γ n (targetUri m.qname) c y = true) (f : Nat)
+    (y : Val) (hy : valObjG true Γ n (targetUri m.qname) c y = true) (f : Nat)
     (hfuel : 4 * y.size + 3 ≤ f) :
     ItemG e Γ cfg M (targetUri q) (treeOfN Γ cfg M n (targetUri m.qname)) var f y ∧
       plain M (itemTree M (treeOfN Γ cfg M n (targetUri m.qname)) var y) = true ∧
@@ -133,9 +133,9 @@ theorem item_obj (e : BEnv) (Γ : Ctx) (cfg : SerCfg) (pcfg : ParserConfig) (M :
   -- `y` is an object
   have hobj : ∃ fs, y = .obj c fs := by
     cases n with
-    | zero => simp [valObjN] at hy
+    | zero => simp [valObjG] at hy
     | succ k =>
-      cases y <;> simp [valObjN] at hy
+      cases y <;> simp [valObjG] at hy
       rename_i cls fs
       exact ⟨fs, by rw [hy.1]⟩
   obtain ⟨fs, rfl⟩ := hobj
@@ -187,7 +187,7 @@ theorem field_of_var {ci : ClassInfo} {var : XmlVar} (hfa : fieldAgrees ci var =
 
 theorem attr_field_ok {Γ : Ctx} {m : XmlMeta} {ci : ClassInfo} {fields : List (Str × Val)}
     (cfg : SerCfg) {var : XmlVar} (hv : attrVarOK m ci var = true)
-    (hx : attrValOK Γ ci var (look fields var.name) = true)
+    (hx : attrValOK true Γ ci var (look fields var.name) = true)
     (hnd : (ci.fields.map (·.name)).Nodup) {f : FieldInfo} (hf : f ∈ ci.fields)
     (hname : var.name = f.name) {P : Params}
     (hP : P.get var.name = (attrOf cfg fields var).map Val.prim) :
@@ -222,7 +222,7 @@ theorem attr_field_ok {Γ : Ctx} {m : XmlMeta} {ci : ClassInfo} {fields : List (
 theorem elemVal_prim {ci : ClassInfo} {var : XmlVar} {rec : ClassId → Val → Bool} {x : Val} {t : PT}
     (hc : var.clazz = none) (ht : var.types = [.prim t])
     (hd : if var.listElement then var.default = .listFactory else scalarDefault var.default t = true)
-    (hx : elemValOK ci var rec x = true) :
+    (hx : elemValOK true ci var rec x = true) :
     ValShape var x ∧ (x = .none → fdNone ci var.name = true) ∧
       ∀ y ∈ itemsOf x, ∃ p, y = .prim p ∧ primHasType p t = true ∧
         (p = .str [] → var.default = .none ∨ var.default = .val (.str []) ∨
@@ -259,7 +259,7 @@ theorem elemVal_prim {ci : ClassInfo} {var : XmlVar} {rec : ClassId → Val → 
 
 theorem elemVal_cls {ci : ClassInfo} {var : XmlVar} {rec : ClassId → Val → Bool} {x : Val}
     {c : ClassId} (hc : var.clazz = some c)
-    (hx : elemValOK ci var rec x = true) :
+    (hx : elemValOK true ci var rec x = true) :
     ValShape var x ∧ (x = .none → fdNone ci var.name = true) ∧
       ∀ y ∈ itemsOf x, rec c y = true := by
   unfold elemValOK at hx
@@ -397,9 +397,9 @@ theorem items_all (e : BEnv) (Γ : Ctx) (cfg : SerCfg) (pcfg : ParserConfig) (M 
     (IH : MainStmt e Γ cfg pcfg M n) {ci : ClassInfo} {m : XmlMeta} (hw : m.wildcards = [])
     {fields : List (Str × Val)} (q : QN) (hnsq : nsAgree Γ m q = true) (f : Nat)
     (hfuel : 4 * sizeFields fields + 2 ≤ f)
-    {var : XmlVar} (hmem : var ∈ m.elementVars) (hv : elemVarOK Γ m ci var = true)
+    {var : XmlVar} (hmem : var ∈ m.elementVars) (hv : elemVarOK true Γ m ci var = true)
     (hin : var.name ∈ fields.map (·.1))
-    (hx : elemValOK ci var (valObjN Γ n (targetUri m.qname)) (look fields var.name) = true) :
+    (hx : elemValOK true ci var (valObjG true Γ n (targetUri m.qname)) (look fields var.name) = true) :
     ValShape var (look fields var.name) ∧
     (look fields var.name = .none → fdNone ci var.name = true) ∧
     ∀ y ∈ itemsOf (look fields var.name),
@@ -496,7 +496,7 @@ theorem main_step (e : BEnv) (Γ : Ctx) (cfg : SerCfg) (pcfg : ParserConfig) (M 
     -- unpack the value conditions
     obtain ⟨ci, hfind, hmf⟩ : ∃ ci, Γ.find c = some ci ∧ ci.metaFor pnsP = some mp := by
       simpa [metaOf, Option.bind_eq_some_iff] using hmp
-    simp only [valObjN, hfind, hmf, Bool.and_eq_true, decide_eq_true_eq, List.all_eq_true] at hval
+    simp only [valObjG, hfind, hmf, Bool.and_eq_true, decide_eq_true_eq, List.all_eq_true] at hval
     obtain ⟨hcls, ⟨hnames, hattrs⟩, hbody⟩ := hval
     subst hcls
     have MF := ctx_metaFacts hΓ hfind hmf
@@ -535,7 +535,7 @@ theorem main_step (e : BEnv) (Γ : Ctx) (cfg : SerCfg) (pcfg : ParserConfig) (M 
       dsimp only
       obtain ⟨hEV, hTV⟩ : mp.elementVars = [tv] ∧ textVarOK ci tv = true := by
         simpa [htext] using MF.body
-      have hTX : textValOK ci tv (look fields tv.name) = true := by simpa [htext] using hbody
+      have hTX : textValOK true ci tv (look fields tv.name) = true := by simpa [htext] using hbody
       simp only [textVarOK, varBase, Bool.and_eq_true, Bool.not_eq_true', Option.isNone_iff_eq_none]
         at hTV
       obtain ⟨⟨⟨⟨hisText, hbase⟩, _⟩, htypes⟩, hfa⟩ := hTV
@@ -601,7 +601,8 @@ theorem main_step (e : BEnv) (Γ : Ctx) (cfg : SerCfg) (pcfg : ParserConfig) (M 
           · rw [hlook]; exact hparse
         · -- the text is a primitive
           rename_i p hlook
-          simp only [Bool.and_eq_true, Bool.or_eq_true, decide_eq_true_eq] at hTX
+          simp only [Bool.and_eq_true, Bool.or_eq_true, decide_eq_true_eq, Bool.not_true,
+            Bool.false_eq_true, false_or] at hTX
           obtain ⟨hpt, hemp⟩ := hTX
           obtain ⟨f', rfl⟩ : ∃ f', f = f' + 1 := ⟨f - 1, by omega⟩
           have hgen := genField_text e Γ cfg f' (targetUri q) hmixed hisText hwrap hpt
@@ -653,9 +654,9 @@ theorem main_step (e : BEnv) (Γ : Ctx) (cfg : SerCfg) (pcfg : ParserConfig) (M 
       · cases hTX
     | none =>
       dsimp only
-      have hEall : ∀ var ∈ mp.elementVars, elemVarOK Γ mp ci var = true := by
+      have hEall : ∀ var ∈ mp.elementVars, elemVarOK true Γ mp ci var = true := by
         simpa [htext] using MF.body
-      have hbodyE : ∀ var ∈ mp.elementVars, elemValOK ci var (valObjN Γ n (targetUri mp.qname))
+      have hbodyE : ∀ var ∈ mp.elementVars, elemValOK true ci var (valObjG true Γ n (targetUri mp.qname))
           (look fields var.name) = true := by simpa [htext] using hbody
       have hEF : ∀ var ∈ mp.elementVars, ElemFacts mp var := fun var hv => (elemFacts_of (hEall var hv)).1
       have hin : ∀ var ∈ mp.elementVars, var.name ∈ fields.map (·.1) := fun var hv => by
@@ -739,14 +740,14 @@ theorem main_step (e : BEnv) (Γ : Ctx) (cfg : SerCfg) (pcfg : ParserConfig) (M 
           hBodyW
         simpa [treeSax] using this
       · simp [plain, hplainK]
-  | _ => simp [valObjN] at hval
+  | _ => simp [valObjG] at hval
 
 
 theorem main_all (e : BEnv) (Γ : Ctx) (cfg : SerCfg) (pcfg : ParserConfig) (M : NsMap)
     (hΓ : ctxF1 Γ = true) : ∀ n, MainStmt e Γ cfg pcfg M n
   | 0 => by
     intro v c pnsG pnsP oq q fuel mg mp _ _ _ _ _ hval _
-    simp [valObjN] at hval
+    simp [valObjG] at hval
   | n + 1 => main_step e Γ cfg pcfg M hΓ n (main_all e Γ cfg pcfg M hΓ n)
 
 theorem nsAgree_self (Γ : Ctx) (m : XmlMeta) : nsAgree Γ m m.qname = true := by
@@ -759,16 +760,16 @@ theorem roundtrip_F1 (e : BEnv) (Γ : Ctx) (cfg : SerCfg) (pcfg : ParserConfig) 
     (hΓ : ctxF1 Γ = true) (hv : valF1 e Γ c v = true) :
     ∃ evs t, generate e Γ cfg v = .ok evs ∧ eventsTree (isDatatype Γ) evs = .ok t ∧
       parseRoot e Γ pcfg c t = .ok (v, 0) := by
-  unfold valF1 at hv
+  unfold valF1 valObjN at hv
   -- `v` is an object whose class has metadata
   obtain ⟨n, hn⟩ : ∃ n, v.size = n + 1 := ⟨v.size - 1, by cases v <;> simp [Val.size] <;> omega⟩
   rw [hn] at hv
   obtain ⟨fields, rfl⟩ : ∃ fields, v = .obj c fields := by
-    cases v <;> simp [valObjN] at hv
+    cases v <;> simp [valObjG] at hv
     rename_i cls fs
     exact ⟨fs, by rw [hv.1]⟩
   obtain ⟨m, hm⟩ : ∃ m, metaOf Γ c none = some m := by
-    simp only [valObjN] at hv
+    simp only [valObjG] at hv
     cases hf : Γ.find c with
     | none => simp [hf] at hv
     | some ci =>
